@@ -130,6 +130,8 @@ def run(ctx):
 
 
 # ----------------------------------------------------------------------------------------------------------------------
+    check_lexicographic(ctx)
+
 
 def is_line_text(u: Units, e) -> bool:
     """Is `e` a source line / source text (string indexed by character)?"""
@@ -264,3 +266,70 @@ def check_units(ctx, fi, res):
             for p_ in parts:
                 if p_ is not None:
                     need(n, p_, 'C', 'index / slice bound into a source line')
+
+
+# ---- R6.5 ------------------------------------------------------------------------------------------------------------
+import re as _re
+
+_LINE_RE = _re.compile(r'(^|_|\.)(b?(end_)?ln\d?|(end_)?lineno|[a-z0-9_]*_ln\d?|[a-z0-9_]*_lineno)$')
+_COL_RE = _re.compile(r'(^|_|\.)(b?(end_)?col\d?|(end_)?col_offset|[a-z0-9_]*_col\d?|[a-z0-9_]*_col_offset)$')
+
+R65_REVIEWED = {
+    ('slice_exprlike', 'put_slice_sep_begin', 'put_end_ln < self.end_ln or put_end_col < self.end_col'):
+        'the put position lies inside `self`, so (put_end_ln, put_end_col) <= (self.end_ln, self.end_col) already holds; under that '
+        'invariant the expression is exactly "not equal to the end of self", which is what the comment says',
+}
+
+
+def _poskind(e):
+    if isinstance(e, ast.NamedExpr):
+        return _poskind(e.target)
+    if isinstance(e, (ast.Name, ast.Attribute)):
+        t = norm(e)
+        if _LINE_RE.search(t):
+            return 'L'
+        if _COL_RE.search(t):
+            return 'C'
+        return None
+    if isinstance(e, ast.BinOp):
+        k = {_poskind(e.left), _poskind(e.right)} - {None}
+        return next(iter(k)) if len(k) == 1 else None
+    return None
+
+
+def _cmpkind(c):
+    if isinstance(c, ast.Compare) and len(c.ops) == 1:
+        l, r = _poskind(c.left), _poskind(c.comparators[0])
+        if l and l == r:
+            op = c.ops[0]
+            return l, 'ord' if isinstance(op, (ast.Lt, ast.Gt, ast.LtE, ast.GtE)) else 'eq' if isinstance(op, ast.Eq) else 'other'
+    return None, None
+
+
+def check_lexicographic(ctx):
+    ctx.rule('R6.5', 'two (line, column) positions are ordered lexicographically: a column comparison decides only under equal lines', 15)
+    n = 0
+    for fi in ctx.repo.all_funcs():
+        if isinstance(fi.node, ast.Lambda):
+            continue
+        for b in walk_no_nested(fi.node):
+            if isinstance(b, ast.Compare) and len(b.ops) == 1 and isinstance(b.left, ast.Tuple) and isinstance(b.comparators[0], ast.Tuple) and \
+                    len(b.left.elts) == 2 and [_poskind(x) for x in b.left.elts] == ['L', 'C']:
+                n += 1
+                ok = [_poskind(x) for x in b.comparators[0].elts] == ['L', 'C']
+                ctx.check('R6.5', ok, fi.module, fi.qualname, norm(b, 90), 'tuple comparison pairs a (line, column) with something that is not a '
+                          '(line, column)', b.lineno, sample={'function': fi.key, 'compare': norm(b, 90), 'form': 'tuple'})
+            if not isinstance(b, ast.BoolOp):
+                continue
+            ks = [_cmpkind(v) for v in b.values]
+            if ('L', 'ord') not in ks:
+                continue
+            n += 1
+            bad = ('C', 'ord') in ks       # a bare column ordering next to a line ordering in the same and / or
+            rv = R65_REVIEWED.get((fi.module, fi.qualname.split('[')[0], norm(b, 200)))
+            ctx.check('R6.5', (not bad) or bool(rv), fi.module, fi.qualname, norm(b, 120),
+                      'line and column are compared independently (`l1 < l2 or c1 < c2` style): the result is wrong whenever the position on the '
+                      'later line has the smaller column; compare `(line, col)` tuples or guard the column test with line equality', b.lineno,
+                      sample={'function': fi.key, 'compare': norm(b, 100), 'reviewed': rv})
+    if n < 15:
+        raise AnalysisError(f'only {n} position comparisons found')
